@@ -24,7 +24,7 @@ claim("C18",
       "is s..k -> 0..7, consulted case-insensitively (P4); producers, the consumer loop and the shell constructor agree on "
       "(angmom, exps, coeffs) and SP column i goes with letter i (P5); shells are built atom-major with that atom's row and index "
       "(P6); each shell receives the next coordinate type in construction order (P7); coord_types is used through the Sequence "
-      "protocol only (P8); from_pyscf unpacks the PySCF record layout; EFFECTS shows that none of the five import functions mutates "
+      "protocol only (P8); every line of a record's text is tried against the row pattern - complete split, non-matching lines skipped, never ending the loop (P9); from_pyscf unpacks the PySCF record layout; EFFECTS shows that none of the five import functions mutates "
       "an argument. These hold for all inputs because they are facts about the patterns and the dataflow, not about sampled files. "
       "Round-trip of arbitrary generated files is not decided.",
       "Trusted: python re semantics, the NWChem/Gaussian94/PySCF format facts stated in the evidence assumptions, EFFECTS API table.",
@@ -38,7 +38,7 @@ claim("C14",
       "0/0 on a nucleus); every size comparison of the density matrix is against transform.shape[0] on the transform path and "
       "against the AO count only without one (D2, path conditions); the returned expression equals +sum Z/d (thresholded) - sum "
       "P*I as a symbolic identity given point_charge_integral(q) = -q*I (SIGN); basis, points, transform are forwarded and the "
-      "probe charges are -1 (FWD). Holds for all charges, thresholds and transformations because nothing is sampled. The values "
+      "probe charges are -1 (FWD); boolean-mask reads are tracked as selections, so filtering the nuclei may only drop zero charges. Holds for all charges, thresholds and transformations because nothing is sampled. The values "
       "of the integrals are C03's.",
       "Trusted: elementwise abstraction (broadcast adapters dropped, np.sum linear), sympy simplify, C03 for the integral values.",
       "DESIGN.md 2.4, 2.6, 3 (C14)")
@@ -49,7 +49,7 @@ claim("C20",
       "b_min) ln tol) with the minimum taken over the right shell's exponents; the decision is the strict `distance > cutoff` with "
       "the Euclidean centre distance; None is decided before any use and bool is rejected; the screened block's four axes are the "
       "segment/component counts of the respective shells; kept blocks have no dependence on the tolerance; overlap_integral "
-      "forwards tol_screen identically on its four assembly branches (dispatch predicates checked). Monotonicity in the tolerance "
+      "forwards tol_screen identically on its four assembly branches (dispatch predicates checked) and neither the wrapper, the kernel nor the predicate replaces the tolerance on any path (no global switch-off). Monotonicity in the tolerance "
       "follows from the formula (derivative sign recorded). The magnitude bound on removed elements is numerical and not decided.",
       "Trusted: sympy; assembly forwards **kwargs (C09/A1); a block depends only on its own shells (C11/G1).",
       "DESIGN.md 2.4, 2.6, 3 (C20)")
@@ -63,7 +63,7 @@ claim("C09",
       "caller's kwargs; per index exactly one multiply by that shell's contraction norm on its own (M,L) axes, then - iff spherical "
       "- one tensordot with that shell's own Cartesian->spherical matrix contracting its L axis; segment-major flattening; blocks "
       "concatenated in shell-list order, reused blocks permuted like their grid index; lincomb applies T to every basis index in "
-      "place and dispatches by type; mix agrees with the dedicated paths. The 9 public wrappers + 2 special ones obey the dispatch "
+      "place and dispatches by type; mix agrees with the dedicated paths; a basis axis carries spherical components exactly for the shells declared spherical (an identity in place of the transformation is accepted only on a path where that shell is an s shell - comparisons on angular momenta are explored over consistent candidate values); a per-segment norm column spread with np.repeat over the shell's own components is the same factor (norm_cont does not depend on the component), spread with np.tile it is mis-ordered. The 9 public wrappers + 2 special ones obey the dispatch "
       "and keyword-forwarding rule. Numerical equality to rounding and the content of the transformation matrix (C10) are not decided.",
       "Trusted: numpy axis semantics as modelled in gbsa/axtype.py; bound on the NUMBER of shells (sizes unbounded); kernels honour "
       "contract K.",
@@ -106,8 +106,8 @@ claim("C06",
       "gradient R(e_k) as (points,3); Laplacian sum_k R(2e_k); Hessian R(e_a+e_b), symmetric, trace = Laplacian; posdef KED 1/2 sum_k "
       "G(e_k,e_k); general KED = posdef + alpha LAP with the alpha != 0 guard at a root of its coefficient; evaluate_deriv_density(L) "
       "= Leibniz expansion for all 125 order triples with components 0..4 (decides the l_x shortcut and its factor 1/2), orders "
-      "above 2 routed to the general back-end for BOTH order vectors. The two threshold checks raise exactly when min<0 and "
-      "|min|>threshold (compared over all sign/order cases) and otherwise return clip(min=0) of the checked array (scaled by 1/2 for "
+      "above 2 routed to the general back-end for BOTH order vectors; orbital arrays have object identity, so in-place writes (`x *= ..`, `out=x`) are seen through every alias. The two threshold checks raise exactly when some value is negative with magnitude above the threshold - the checking code touches values only through comparisons, abs, selections and min/max, so it is decided by enumerating every ordering of up to three values against 0 and +-threshold "
+      "(finite-orderings argument) and otherwise return clip(min=0) of the checked array (scaled by 1/2 for "
       "the KED); transform/deriv_type are forwarded at all internal call sites. 'To rounding error' and non-negativity for PSD "
       "matrices are numerical and not decided; orders bounded at 4 per axis for the Leibniz rule.",
       "Trusted: evaluate_basis/evaluate_deriv_basis return orbital values/derivatives with axes (orbitals, points) (C05); "
@@ -140,7 +140,7 @@ claim("C01",
       "contracted once with their own shell's coefficients and primitive norms; the kernel's axes are (M_1, L_1, M_2, L_2). A "
       "stability lint rejects start values/coefficients that cancel squares of absolute positions. norm_prim_cart equals "
       "(int g^2)^(-1/2) by computer algebra; the contraction norm is the -1/2 power of the 'ijij' diagonal of the shell's own overlap "
-      "block; OverlapAsymmetric reuses the same kernel object. The 1e-8 accuracy claim itself is numerical and not decided.",
+      "block, decided on the value that is finally stored in norm_cont; OverlapAsymmetric reuses the same kernel object. The public wrapper(s) are covered too: parameters are used as given on every path (no filtered, re-ordered, scaled or defaulted copy; INPUTS), the Cartesian / spherical / mixed / transformed routes are dispatched through the four assembly methods with identical keywords (DISPATCH), and every return of the kernel chain derives from the recursion (MPT). The 1e-8 accuracy claim itself is numerical and not decided.",
       _KERNEL_NOTE, "DESIGN.md 2.1, 2.2, 2.4, 3 (C01)")
 
 claim("C02",
@@ -150,7 +150,7 @@ claim("C02",
       "order, and the returned cut satisfies size >= cut + max order symbolically (every entry read is still valid after that many "
       "steps); the returned expression is -1/2 times the sum over exactly {2e_x, 2e_y, 2e_z} of x/y/z products selected with the "
       "shells' own components, contracted once per shell, axes (M_1, L_1, M_2, L_2); every return of the kernel and of the private "
-      "functions under it is derived from the recursion (no data-dependent early return). Accuracy is not decided.",
+      "functions under it is derived from the recursion (no data-dependent early return); table entries are stored once, never rescaled or masked afterwards. The public wrapper(s) are covered too: parameters are used as given on every path (no filtered, re-ordered, scaled or defaulted copy; INPUTS), the Cartesian / spherical / mixed / transformed routes are dispatched through the four assembly methods with identical keywords (DISPATCH), and every return of the kernel chain derives from the recursion (MPT). Accuracy is not decided.",
       _KERNEL_NOTE, "DESIGN.md 2.2, 3 (C02)")
 
 claim("C07",
@@ -160,7 +160,7 @@ claim("C07",
       "factors are selected with (requested order component, shell two's components, shell one's components, component) on the axes "
       "whose recursion used those centres; the order triples end up as the last axis in the given order; the table is sized by the "
       "largest requested order; arguments are validated before use. Order (0,0,0) = overlap and the binomial origin shift follow from "
-      "the recurrence. Accuracy is not decided.",
+      "the recurrence. The public wrapper(s) are covered too: parameters are used as given on every path (no filtered, re-ordered, scaled or defaulted copy; INPUTS), the Cartesian / spherical / mixed / transformed routes are dispatched through the four assembly methods with identical keywords (DISPATCH), and every return of the kernel chain derives from the recursion (MPT). Accuracy is not decided.",
       _KERNEL_NOTE, "DESIGN.md 2.2, 3 (C07)")
 
 claim("C08",
@@ -170,7 +170,7 @@ claim("C08",
       "one (adjoint fill, not in place). The momentum kernel is the first-derivative table (recurrence D, overlap start, padding) "
       "selected with rows e_x, e_y, e_z in this order as the last axis; the three stacked components of the angular-momentum kernel are, "
       "as formal products of 1-D integrals, S_k (M1_{k+1} D1_{k+2} - M1_{k+2} D1_{k+1}) with first moments about the literal coordinate "
-      "origin and every factor selected with its own direction's component columns; contraction once per shell; contract K. Exactness as "
+      "origin and every factor selected with its own direction's component columns; contraction once per shell; contract K. The public wrapper(s) are covered too: parameters are used as given on every path (no filtered, re-ordered, scaled or defaulted copy; INPUTS), the Cartesian / spherical / mixed / transformed routes are dispatched through the four assembly methods with identical keywords (DISPATCH), and every return of the kernel chain derives from the recursion (MPT). Exactness as "
       "numbers is not decided.",
       _KERNEL_NOTE + " Hermiticity of -i grad and -i r x grad in exact arithmetic.", "DESIGN.md 2.2, 2.8, 3 (C08)")
 
@@ -184,7 +184,7 @@ claim("C03",
       "shells' component normalisation, charge axis last and unreduced; both branches return (M_1, L_1, M_2, L_2, N), so every a/b pair is "
       "exchanged consistently and un-swapped. boys_func is extracted as a closed form and equals 1F1(m+1/2;m+3/2;-x)/(2m+1) symbolically, "
       "else it is refuted by 40-digit evaluation of the two formulas (not of gbasis) or left undecided. The nuclear attraction sums over the "
-      "charge axis with all arguments forwarded; every return passes through the recursion. Accuracy and hyp1f1's behaviour are not decided.",
+      "charge axis with all arguments forwarded and the charge/coordinate arrays used as given (a filter may only skip zero charges); every return passes through the recursion. The public wrapper(s) are covered too: parameters are used as given on every path (no filtered, re-ordered, scaled or defaulted copy; INPUTS), the Cartesian / spherical / mixed / transformed routes are dispatched through the four assembly methods with identical keywords (DISPATCH), and every return of the kernel chain derives from the recursion (MPT). Accuracy and hyp1f1's behaviour are not decided.",
       _KERNEL_NOTE, "DESIGN.md 2.2, 3 (C03)")
 
 claim("C04",
@@ -196,7 +196,7 @@ claim("C04",
       "paired by identity; primitives are contracted once per shell with that shell's coefficients and exponent normalisation; the final "
       "component normalisation covers all four shells once; the kernel returns (M_1, L_1, ..., M_4, L_4). The all-s closed form equals "
       "the same start value at m = 0, contracted once per shell, and is dispatched exactly when all four l are 0. notation is validated and "
-      "the physicists' array is the chemists' with axes (0,2,1,3). The 1e-6-of-Schwarz accuracy and the electron transfer's "
+      "the physicists' array is the chemists' with axes (0,2,1,3). The public wrapper(s) are covered too: parameters are used as given on every path (no filtered, re-ordered, scaled or defaulted copy; INPUTS), the Cartesian / spherical / mixed / transformed routes are dispatched through the four assembly methods with identical keywords (DISPATCH), and every return of the kernel chain derives from the recursion (MPT). The 1e-6-of-Schwarz accuracy and the electron transfer's "
       "ill-conditioning are numerical and not decided.",
       _KERNEL_NOTE, "DESIGN.md 2.2, 3 (C04)")
 
@@ -221,7 +221,7 @@ claim("C13",
       "is the union of its columns in order. No primitive axis is ever indexed, sliced or partially reduced (events logged by the "
       "evaluator), the screening uses exponents through min() only, the evaluation back-ends use the coefficients once in "
       "tensordot(...,(0,0)) and only broadcast the exponents: invariance under reordering and splitting primitives. The contraction norm "
-      "is the -1/2 power of the shell's own overlap diagonal (degree-0 homogeneity in each column); assembly applies it once per index "
+      "is exactly the -1/2 power of the shell's own overlap diagonal, decided on the value finally stored (degree-0 homogeneity in each column); assembly applies it once per index "
       "before the spherical transform and flattens segment-major. Scale invariance over 12 orders of magnitude as a floating-point "
       "statement is not decided.",
       _KERNEL_NOTE, "DESIGN.md 3 (C13)")
